@@ -17,11 +17,11 @@ from . import common, c04
 ID = "C16"
 NEEDS_MODEL = True
 LEVEL = "exploration"
-N = {"quick": 480, "thorough": 9000}
+N = {"quick": 800, "thorough": 9000}
 
 
 def classify(spec, problems, extents=None):
-    k = kf.kf1_take_in_sum(spec, problems) or kf.classify_name_error(spec, problems)
+    k = kf.classify_plain(spec, problems)
     if k:
         return k
     if "st-affine" in spec.tags:
